@@ -64,6 +64,11 @@ def run(repo, rep, tier):
     # a node's settings (its default marker, its escape set) reach the
     # engine that compiles its expression
     L.engine_fields_rule(repo, rep, "R06.3")
+    # which context a token is (comment, CDATA, tag ...) is decided by
+    # identify() (C03 owns the parser details)
+    from . import c03 as _c03
+    L.borrow(repo, rep, "R06.1", "C03", _c03.parser_details,
+             ("identify-kinds",))
     # data-meta-interpolation is meta:interpolation (C18 owns the conversion)
     from . import c18 as _c18
     L.borrow(repo, rep, "R06.2", "C18", _c18._keyed, ("language-only",))
